@@ -604,7 +604,7 @@ fn run_op(ctx: &mut Ctx, op: &str) -> String {
                     Ok(()) => "OK".to_string(),
                     Err(e) => err(&e),
                 },
-                "W" => walk(pp, f[1], f[2] == "1", if f.len() > 3 { f[3] } else { "*" }),
+                "W" => walk(pp, f[1], f.len() > 2 && f[2] == "1", if f.len() > 3 { f[3] } else { "*" }),
                 _ => panic!("bad op in case file: {}", op),
             }
         }
